@@ -437,6 +437,31 @@ def r7_destructured_names_are_bound_in_source_order(ctx):
     ctx.ob("C09.R7", f"{CORE}::loop::plain symbol bindings expand to loop* as they are", CORE, lp.line, bool(plain), "" if plain else "every loop now goes through the destructuring template")
 
 
+class _As:
+    """ctx proxy that files another property's rule under an id of this property."""
+
+    def __init__(self, ctx, rid):
+        self._ctx, self._rid = ctx, rid
+
+    def __getattr__(self, name):
+        return getattr(self._ctx, name)
+
+    def ob(self, _rid, *a, **k):
+        return self._ctx.ob(self._rid, *a, **k)
+
+
+@rule("C09.R10", floor=2)
+def r10_template_symbols_are_not_captured_by_outer_parameters(ctx):
+    """A syntax-quoted template names a Var of its namespace by a qualified symbol; where the macro is
+    expanded, that symbol must denote the Var whatever locals are in scope there.  The generator
+    compiles it to a bare Python global unless a Python local of that name is in scope, and a nested
+    closure (fn, #(), the fns that for / delay / lazy-seq wrap around their bodies) has the
+    parameters of every enclosing function in scope.  This is C10.R12's check of the symbol-table
+    test, decided here as well because its failure is a failure of template hygiene."""
+    from . import C10
+    C10.r12_the_local_name_test_sees_every_enclosing_function(_As(ctx, "C09.R10"))
+
+
 @rule("C09.R9", floor=1)
 def r9_loaded_forms_are_read_one_at_a_time(ctx):
     """The reader resolves the symbols of a syntax-quoted template when it *reads* the form, against
